@@ -125,6 +125,10 @@ fn history(cfg: &Cfg, rep: &mut Report, h: u64, rounds: usize) {
     // scripts of the mock policies: (policy index, rule id) -> bits
     let mut scripts: std::collections::BTreeMap<(usize, u32), u32> = Default::default();
     let mut thresholds: std::collections::BTreeMap<u32, u32> = Default::default(); // rule id -> threshold (real policy)
+    // expiry of every rule as the account was TOLD (add / update_valid_until), independent of what the
+    // registry reports back: a rule that loses its expiry must not keep authorizing
+    let mut vu_model: std::collections::BTreeMap<u32, Option<u32>> = Default::default();
+    vu_model.insert(0, None);
     for round in 0..rounds {
         // ---------------- edit the rule set ----------------
         let rules = read_rules(&u);
@@ -167,9 +171,12 @@ fn history(cfg: &Cfg, rep: &mut Report, h: u64, rounds: usize) {
                 };
                 desc = format!("add_context_rule type={t:?} signers={ns} policies={} threshold={thr:?} valid_until={vu:?}", pm.len());
                 r = invoke(e, &account, "add_context_rule", args!(e, t, SString::from_str(e, "r"), vu, sv, pm));
-                if let (Ok(v), Some(tt)) = (&r, thr) {
+                if let Ok(v) = &r {
                     if let Ok(cr) = ContextRule::try_from_val(e, v) {
-                        thresholds.insert(cr.id, tt);
+                        vu_model.insert(cr.id, vu);
+                        if let Some(tt) = thr {
+                            thresholds.insert(cr.id, tt);
+                        }
                     }
                 }
             } else if k < 52 {
@@ -209,8 +216,16 @@ fn history(cfg: &Cfg, rep: &mut Report, h: u64, rounds: usize) {
                     1 => Some(cur + 1 + rng.below(10) as u32),
                     _ => None,
                 };
-                desc = format!("update_context_rule_valid_until rule {} -> {vu:?}", rl.id);
-                r = invoke(e, &account, "update_context_rule_valid_until", args!(e, rl.id, vu));
+                if rng.chance(1, 3) {
+                    desc = format!("update_context_rule_name rule {}", rl.id);
+                    r = invoke(e, &account, "update_context_rule_name", args!(e, rl.id, SString::from_str(e, "renamed")));
+                } else {
+                    desc = format!("update_context_rule_valid_until rule {} -> {vu:?}", rl.id);
+                    r = invoke(e, &account, "update_context_rule_valid_until", args!(e, rl.id, vu));
+                    if r.is_ok() {
+                        vu_model.insert(rl.id, vu);
+                    }
+                }
             }
             rep.evaluations += 1;
             rep.op(format!("edit: {desc} -> {}", tag(&r)));
@@ -218,7 +233,16 @@ fn history(cfg: &Cfg, rep: &mut Report, h: u64, rounds: usize) {
         }
         let _ = rules;
         // scripts for the mock policies
-        let rules = read_rules(&u);
+        let mut rules = read_rules(&u);
+        for r in rules.iter_mut() {
+            if let Some(v) = vu_model.get(&r.id) {
+                if r.valid_until != *v {
+                    rep.count("registry_reports_other_valid_until");
+                    rep.op(format!("note: rule {} reports valid_until {:?}, it was told {:?}", r.id, r.valid_until, v));
+                }
+                r.valid_until = *v;
+            }
+        }
         for rl in &rules {
             for (pi, p) in u.policies.iter().enumerate() {
                 if rl.policies.contains(p) && rng.chance(1, 6) {
